@@ -38,6 +38,17 @@ CLAIMED.update({
     ),
 })
 
+CLAIMED.update({
+    "C20": dict(
+        technique="interprocedural may-alias / in-place-mutation dataflow analysis (flow-sensitive abstract interpretation per function, summaries to a fixpoint) over a frozen NumPy view/copy/in-place table",
+        text="For every public entry point (294 signatures, 662 parameters) no value that may share memory with an argument - through view-preserving NumPy "
+        "conversions, container packing, property getters and in-repo calls - reaches an in-place write; likewise for arrays read back from a Field's stored results "
+        "and for caller arrays kept in object fields. Covers every aliasing layout at once (over-approximation: every op that can return a view is taken to return one). "
+        "Four genuine defects found this way were repaired in /repo (fix: commits) and are re-introduced by the self-test corpus.",
+        ref="DESIGN.md section 4 C20, section 3 E3",
+    ),
+})
+
 NOT_APPLICABLE = {
     "C01": "distributional property over seeds (ensemble mean/covariance at Monte-Carlo rate); no code-shape clause beyond those decided under C04/C11/C12 - needs sampling or quadrature, a different technique family",
 }
@@ -90,7 +101,7 @@ def main():
     print("MANIFEST.json: %d checks, %d not_applicable" % (len(checks), len(na)))
 
 
-SOURCE_COMMITS = []
+SOURCE_COMMITS = ["c203823", "0fd70cf", "8261140", "84533cc"]
 
 if __name__ == "__main__":
     main()
